@@ -8,6 +8,7 @@
 //! file can be fed back as a replay).
 mod common;
 
+mod c02;
 mod c13;
 
 use common::*;
@@ -67,6 +68,7 @@ fn main() {
 
 fn new_exec(prop: &str, case_no: u64) -> Box<dyn CaseExec> {
     match prop {
+        "C02" => Box::new(c02::Exec::new(case_no)),
         "C13" => Box::new(c13::Exec::new(case_no)),
         _ => {
             eprintln!("unknown property {}", prop);
